@@ -142,7 +142,9 @@ CHECKS = {
                 "through the generated proxy (reflection encoder) arrive at the generated stub equal (call_arguments_arrive), the "
                 "returned value reaches the caller equal (call_result_returns), a signal's payload reaches a generated subscriber "
                 "equal for one and for several parameters, a property round-trips through the signature-checked accessors and a "
-                "value of another type is refused; tied by the regenerated constructor table, basic widths and the shapes of 33 "
+                "value of another type is refused; the Go names of up to a hundred actions of an object are pairwise distinct "
+                "(registerName_fresh, registerAll_nodup) and never collide with a method of the embedded proxy "
+                "(clean_method_not_embedded); tied by the regenerated constructor table, basic widths and the shapes of 33 "
                 "statement generators; validated by compiling and running generated packages: real server, real session, "
                 "generated implementor, independent codec for the values",
         "note": "partial: 'the generated code compiles' is translation validation by sampling (go build of every generated package), "
